@@ -44,8 +44,8 @@ class Opaque:
 
     def __reduce_ex__(self, protocol: int) -> Any:
         # what pickling raises for legal values varies: TypeError (locks, generators), ValueError (ctypes pointers),
-        # RecursionError (deeply nested structures)
-        raise [TypeError, ValueError, RecursionError][self.tag % 3]("cannot pickle 'Opaque' object")
+        # RecursionError (deeply nested structures), RuntimeError (multiprocessing locks/queues), NotImplementedError (pools)
+        raise [TypeError, ValueError, RecursionError, RuntimeError, NotImplementedError][self.tag % 5]("cannot pickle 'Opaque' object")
 
     def __repr__(self) -> str:
         return f"<Opaque:{self.tag}>"
